@@ -148,8 +148,8 @@ CHECKS = {
         ],
         "units": [
             {"name": "blockntfns", "module": "harness", "pkg": "./checks/c11", "test": "TestC11", "tags": "verif",
-             "quick": {"checks": 2500, "shards": 16, "timeout": 600},
-             "thorough": {"checks": 60000, "shards": 16, "timeout": 3600, "shrink": "60s"}},
+             "quick": {"checks": 2500, "shards": 16, "timeout": 600, "regress_n": 2500},
+             "thorough": {"checks": 60000, "shards": 16, "timeout": 3600, "shrink": "60s", "regress_n": 50000}},
         ],
     },
     "C15": {
